@@ -18,8 +18,12 @@ META = {
                   "(three pools as sets of object ids, Get = any free or new object, objects keep stale contents) for "
                   "2 and 3 concurrent requests and all interleavings: pool-object ownership, the inner handler sees "
                   "its own request / logger attributes / client writer at every step, the finished code is the "
-                  "invocation's own, each client receives exactly its invocation's calls; seven design mutations are "
-                  "each shown to break an invariant. Every middleware list and every TLC-enumerated schedule (all "
+                  "invocation's own, each client receives exactly its invocation's calls; the same with the middleware's level "
+                  "filtered out by the base handler (no started/finished, context logger still attributed); "
+                  "LogMwCompose.tla composes instances (outer o inner plus the inner one mounted alone, one instance "
+                  "wrapped twice, warm-up request first) with pool objects tagged by instance (PoolPurity: no foreign or "
+                  "double Put); every design mutation is "
+                  "shown to break an invariant. Every middleware list and every TLC-enumerated schedule (all "
                   "interleavings over the harness-owned gates: base slog.Handler WithAttrs/Enabled/Handle, inner "
                   "handler, client ResponseWriter) x handler behaviour is replayed on the real code with a "
                   "per-request oracle; a free-running -race stress through one middleware is checked per request, by "
@@ -35,6 +39,7 @@ ALL_INV = ["TypeOK", "Ownership", "HandlerSeesOwn", "LoggerOwn", "FinishedCode",
 
 # design mutation -> an invariant it must break (negative model-checking runs)
 NEGATIVE = [
+    ("fastPathDisabled", "HandlerSeesOwn"),   # run with the middleware level disabled
     ("putRwBeforeFinished", "FinishedCode"),
     ("putRwBeforeHandler", "ClientExact"),
     ("putReqBeforeHandler", "HandlerSeesOwn"),
@@ -54,6 +59,9 @@ CHAIN_NEGATIVE = [
 CODES_Q = "{101, 103, 200, 404}"
 CODES_T = "{100, 101, 200, 204, 304, 404, 599, 999}"
 
+COMPOSE_INV = ["PoolPurity", "Ownership", "HandlerSeesOwn", "LoggerOwn", "FinishedCode", "ClientExact", "RecordsOwn",
+               "OncePerLayer"]
+
 GATES_LIFE = '{"started", "hpre", "hpost", "readcode"}'
 GATES_POOL = '{"withattrs", "started", "readcode", "finished"}'
 GATES_WRITE = '{"hpre", "cw", "hpost"}'
@@ -62,7 +70,7 @@ GATES_COARSE = '{"hpre", "readcode"}'
 
 
 def _consts(procs, init, retain=True, policy="any", variant="asWritten", keep=True, maxobj=None, gates=None,
-            pols=None):
+            pols=None, mwon=True):
     c = {"Procs": "{%s}" % ", ".join(str(i) for i in range(1, procs + 1)),
          "InitOps": "<- " + init if init else "{}",
          "MaxObj": maxobj or procs,
@@ -70,6 +78,7 @@ def _consts(procs, init, retain=True, policy="any", variant="asWritten", keep=Tr
          "PolA": '"%s"' % (pols or [policy] * 3)[0],
          "PolQ": '"%s"' % (pols or [policy] * 3)[1],
          "PolW": '"%s"' % (pols or [policy] * 3)[2],
+         "MwEnabled": "TRUE" if mwon else "FALSE",
          "Variant": '"%s"' % variant,
          "KeepRecords": "TRUE" if keep else "FALSE"}
     if gates:
@@ -146,6 +155,8 @@ def _run(ctx):
         "passed and the status its client got are accepted (the code as written records the last one)",
         "request ids are embedded in method-independent fields (URL, host, RemoteAddr, headers, body, context)",
         "handlers that panic are out of scope of the statement",
+        "with the middleware level disabled the inner handler probes at Warn (enabled); started/finished are then "
+        "neither required nor allowed",
         "1xx codes other than 101 are informational (net/http): WriteHeader(103) alone may be logged as 103 or as 200; "
         "101 is a final status and must be logged as 101",
         "ownership of the three pooled objects is taken to last, as written, from their Get until the finished "
@@ -183,6 +194,30 @@ def _run(ctx):
     write_cfg(d / "LogMwMC2_classes.cfg", "Spec", _consts(2, "MCClasses"), invariants=ALL_INV, view="View")
     jobs.add("logmw-mc2-classes", tlc("LogMwMC", "LogMwMC2_classes.cfg",
                                       "logmw-mc: 2 requests, 49 pairs of status-class behaviours (101, 1xx, 204, 304, 599, 999)"))
+    # the middleware's level filtered out by the base handler: no started / finished, same obligations otherwise
+    write_cfg(d / "LogMwMC2_off.cfg", "Spec", _consts(2, "MCAll" if not q else "MCNeg", mwon=False), invariants=ALL_INV,
+              view="View")
+    jobs.add("logmw-mc2-off", tlc("LogMwMC", "LogMwMC2_off.cfg", "logmw-mc: 2 requests, middleware level disabled"))
+    # composition: two instances (outer o inner + the inner one alone) and one instance wrapped twice, after a
+    # warm-up request; pool objects tagged with their instance
+    comp = {"Procs": "{1, 2, 3}", "Mws": "{1, 2}", "Setups": "<- TopoSmall" if q else "<- TopoAll",
+            "WarmProcs": "{1}", "MaxObj": 6, "Policy": '"pooled"', "Retain": "TRUE", "Variant": '"asWritten"'}
+    write_cfg(d / "LogMwComposeMC_run.cfg", "Spec", comp, invariants=COMPOSE_INV, view="View")
+    jobs.add("compose-mc", tlc("LogMwCompose", "LogMwComposeMC_run.cfg",
+                               "compose-mc: nested / twice-wrapped LogMiddlewares, warm-up + 2 requests, all interleavings",
+                               timeout=1500))
+    for inv in ("PoolPurity", "ClientExact"):
+        cfg = "LogMwComposeNeg_%s.cfg" % inv
+        write_cfg(d / cfg, "Spec", dict(comp, Setups="<- TopoSmall", Variant='"reuseUpstreamRecorder"'), invariants=[inv],
+                  view="View")
+        jobs.add("compose-neg-" + inv, tlc("LogMwCompose", cfg, "compose-neg:reuseUpstreamRecorder/" + inv,
+                                           expect_ok=False, workers=2))
+    if not q:
+        write_cfg(d / "LogMwComposeMC_any.cfg", "Spec",
+                  dict(comp, Setups="<- TopoOne", Policy='"any"', MaxObj=5), invariants=COMPOSE_INV, view="View")
+        jobs.add("compose-mc-any", tlc("LogMwCompose", "LogMwComposeMC_any.cfg",
+                                       "compose-mc: nested chain + inner alone, Get = any pooled or new object",
+                                       workers=max(4, NCPU // 2), timeout=2400))
     # three requests: each pool in turn with sync.Pool's full nondeterminism, the other two ideal ("own");
     # thorough adds the joint model of all three pools for one behaviour triple.
     for k, pool in enumerate(("attr", "req", "rw")):
@@ -200,7 +235,8 @@ def _run(ctx):
                                   workers=max(4, NCPU // 2), timeout=2400))
     for variant, inv in NEGATIVE:
         cfg = "LogMwNeg_%s.cfg" % variant
-        write_cfg(d / cfg, "Spec", _consts(2, "MCNeg", variant=variant), invariants=[inv], view="View")
+        write_cfg(d / cfg, "Spec", _consts(2, "MCNeg", variant=variant, mwon=variant != "fastPathDisabled"),
+                  invariants=[inv], view="View")
         jobs.add("neg-" + variant, tlc("LogMwMC", cfg, "logmw-neg:" + variant, expect_ok=False, workers=2))
 
     # ---- 2. generators
@@ -214,14 +250,15 @@ def _run(ctx):
                "OncePerRequest"]
     sched_files = []
 
-    def sched_gen(tag, procs, init, gates, simulate=None, depth=None, retain=True):
+    def sched_gen(tag, procs, init, gates, simulate=None, depth=None, retain=True, mwon=True):
         mod = "LogMwGen_" + tag
         out = "logmw_sched_%s.ndjson" % tag
         src = (d / "LogMwGen.tla").read_text()
         src = src.replace("MODULE LogMwGen ", "MODULE %s " % mod, 1).replace("logmw_sched.ndjson", out)
         (d / (mod + ".tla")).write_text(src)
         cfg = mod + ".cfg"
-        write_cfg(d / cfg, "GSpec", _consts(procs, init, retain=retain, policy="min", gates=gates), invariants=gen_inv)
+        write_cfg(d / cfg, "GSpec", _consts(procs, init, retain=retain, policy="min", gates=gates, mwon=mwon),
+                  invariants=gen_inv)
         sched_files.append((tag, d / out, simulate is None))
         if simulate is None:
             jobs.add("gen-" + tag, tlc(mod, cfg, "sched-gen:" + tag, timeout=1500))
@@ -231,6 +268,14 @@ def _run(ctx):
     sched_gen("life2", 2, "GenAll", GATES_LIFE)
     sched_gen("pool2", 2, "GenSome" if q else "GenAll", GATES_POOL, retain=False)
     sched_gen("classes2", 2, "GenClasses", GATES_COARSE if q else GATES_LIFE)
+    sched_gen("off2", 2, "GenSome", '{"withattrs", "hpre", "hpost", "readcode"}', mwon=False)
+    # composed topologies (LogMwComposeGen writes logmw_sched_compose.ndjson)
+    write_cfg(d / "LogMwComposeGen_run.cfg", "GSpec",
+              dict(comp, Policy='"min"', GateSet='{"hpre", "hpost", "readcode"}' if q
+                   else '{"started", "hpre", "hpost", "readcode"}'),
+              invariants=["Emit"] + COMPOSE_INV)
+    sched_files.append(("compose", d / "logmw_sched_compose.ndjson", True))
+    jobs.add("gen-compose", tlc("LogMwComposeGen", "LogMwComposeGen_run.cfg", "sched-gen:compose", timeout=1500))
     sched_gen("fine2", 2, "GenEvery", GATES_ALL, simulate=2000 if q else 20000)
     if q:
         sched_gen("coarse3", 3, "GenSome", GATES_COARSE, simulate=1500)
@@ -257,6 +302,12 @@ def _run(ctx):
             raise CheckerError("LogMw design mutation %s does not violate %s (got %s):\n%s"
                                % (variant, inv, r.violated, "\n".join(r.out.splitlines()[-25:])))
         neg_ok.append("LogMw/%s -> %s" % (variant, inv))
+    for inv in ("PoolPurity", "ClientExact"):
+        r = res["compose-neg-" + inv]
+        if r.violated != inv:
+            raise CheckerError("LogMwCompose design mutation reuseUpstreamRecorder does not violate %s (got %s)"
+                               % (inv, r.violated))
+        neg_ok.append("LogMwCompose/reuseUpstreamRecorder -> %s" % inv)
     ctx.extra["design_mutations_refuted_by_tlc"] = neg_ok
 
     # ---- 3. G: replay the generated lists / call sequences; T for Wrap
